@@ -64,6 +64,9 @@ type EvalCase struct {
 	Arg    [3]int      `json:"arg"`
 	Hist   []HistOp    `json:"hist"`
 	Poison int         `json:"poison"` // 0 none, 1 all scratch buffers = q-1, 2 random
+	// OutHist is the earlier life of the OUTPUT OBJECT: operations applied to it in place (they grow and shrink its
+	// degree and level, leaving spare capacity behind) before it is handed to the operation under test.
+	OutHist []string `json:"outHist,omitempty"`
 }
 
 func (c EvalCase) RandSeed() uint64 { return c.Seed }
@@ -517,7 +520,54 @@ func (c *EvalCase) effectiveAlias(o *opDesc) int {
 }
 
 func (c *EvalCase) dirtyOut(o *opDesc, al int) bool {
-	return !o.isNew && !o.acc && !c.Out.New && (al == 0 || al == 3)
+	if o.isNew || (al != 0 && al != 3) {
+		return false
+	}
+	if o.acc {
+		// the accumulator is an input; it counts as "used before" when it was shaped by in-place operations
+		return len(c.OutHist) > 0
+	}
+	return !c.Out.New
+}
+
+// outSteps are the in-place operations of an output object's earlier life.
+var outSteps = []string{"Mul2", "Relin", "MulRelinInto", "DropLevel", "Rescale", "AddDeg2", "MulScalar"}
+
+// applyOutHist applies the earlier life of the output object in place, with an evaluator of its own.
+func (c *EvalCase) applyOutHist(e *env, out *rlwe.Ciphertext) {
+	if len(c.OutHist) == 0 || baseScheme(c.Scheme) == "rlwe" {
+		return
+	}
+	hw := e.newWorld(c.Scheme == "bfv")
+	rng := h.NewSplitMix(c.Seed ^ 0x6f686973)
+	call := func(name string, a *rlwe.Ciphertext, b any) {
+		if o := lookupOp(c.Scheme, name); o != nil {
+			_, _ = protect(func() error { _, err := o.call(hw, a, b, out, [3]int{}); return err })
+		}
+	}
+	for _, step := range c.OutHist {
+		drop := e.maxLevel - out.Level()
+		x := e.mkCt(CtSpec{Deg: 1, Drop: drop}, rng)
+		y := e.mkCt(CtSpec{Deg: 1, Drop: drop}, rng)
+		switch step {
+		case "Mul2": // degree 2
+			call("Mul", x, y)
+		case "MulRelinInto": // degree 1 (shrinks a degree-2 object in place)
+			call("MulRelin", x, y)
+		case "Relin": // degree 2 -> 1 in place
+			call("Relinearize", out, nil)
+		case "AddDeg2": // degree -> 2
+			call("Add", out, e.mkCt(CtSpec{Deg: 2, Drop: drop}, rng))
+		case "MulScalar":
+			call("Mul", out, 3)
+		case "Rescale": // level - 1 in place
+			call("Rescale", out, nil)
+		case "DropLevel": // what Evaluator.DropLevel does
+			if out.Level() > 0 {
+				out.Resize(out.Degree(), out.Level()-1)
+			}
+		}
+	}
 }
 
 // run executes the case once. aliasOn: use the aliasing pattern of the case (else all objects distinct);
@@ -608,6 +658,13 @@ func (c *EvalCase) run(e *env, o *opDesc, aliasOn, histOn, dirtyOn bool) (res ou
 			out = e.mkOperand(c.B, h.NewSplitMix(c.Seed^0xb1b1b1b1)).(*rlwe.Ciphertext)
 		default:
 			out = e.mkCt(c.Out.CtSpec, rngO)
+			if len(c.OutHist) > 0 {
+				c.applyOutHist(e, out)
+				if !dirtyOn {
+					// same value in a fresh object (no spare capacity, no earlier life)
+					out = out.CopyNew()
+				}
+			}
 		}
 	default:
 		lvl := res.natLvl
@@ -616,13 +673,14 @@ func (c *EvalCase) run(e *env, o *opDesc, aliasOn, histOn, dirtyOn bool) (res ou
 		}
 		deg := res.natDeg
 		if c.dirtyOut(o, al) {
-			dl := clampLevel(e.maxLevel, c.Out.Drop)
+			s := c.Out.CtSpec
+			s.Deg = maxInt(deg, s.Deg)
+			used := e.mkCt(s, rngO)
+			c.applyOutHist(e, used)
 			if dirtyOn {
-				s := c.Out.CtSpec
-				s.Deg = maxInt(deg, s.Deg)
-				out = e.mkCt(s, rngO)
+				out = used
 			} else {
-				out = e.newCt(deg, minInt(lvl, dl))
+				out = e.newCt(deg, minInt(lvl, used.Level()))
 			}
 		} else {
 			out = e.newCt(deg, lvl)
@@ -745,6 +803,7 @@ func runEval(c EvalCase, rec *h.Rec) error {
 	rec.Class("kind=" + kind)
 	rec.Classf("hist=%d", len(c.Hist))
 	rec.Classf("poison=%d", c.Poison)
+	rec.Classf("outhist=%d", len(c.OutHist))
 	if dirty {
 		rec.Class("out=reused")
 	} else if al == 0 || al == 3 {
@@ -863,6 +922,8 @@ func runEval(c EvalCase, rec *h.Rec) error {
 		if cause == "" && dirty {
 			if dd := differs(c.run(e, o, false, false, true)); dd != "" {
 				switch {
+				case len(c.OutHist) > 0 && (o.acc || A.outDeg <= A.natDeg):
+					cause = "reused-out:in-place-history"
 				case A.outDeg > A.natDeg:
 					cause = "reused-out:larger-degree"
 				case A.outLvl > A.natLvl:
@@ -913,7 +974,11 @@ func runEval(c EvalCase, rec *h.Rec) error {
 		if o.binary && isElementKind(kind) {
 			sr = scaleRel(B.scaleNE)
 		}
-		rec.NonTrivial(fmt.Sprintf("%s|%s|%s|hist=%v|poison=%d|dirty=%v|%s|%s|degA=%d", opName, kind, aliasNames[al], len(c.Hist) > 0, c.Poison, dirty, sr, lv, c.A.Deg))
+		oh := ""
+		if dirty {
+			oh = strings.Join(c.OutHist, ">")
+		}
+		rec.NonTrivial(fmt.Sprintf("%s|%s|%s|hist=%v|poison=%d|dirty=%v|%s|%s|degA=%d|outhist=%s", opName, kind, aliasNames[al], len(c.Hist) > 0, c.Poison, dirty, sr, lv, c.A.Deg, oh))
 	}
 	return nil
 }
